@@ -1,6 +1,7 @@
 (* C16: for EVERY call tree (any mix of plain calls, do_not_convert, unspecified-status wrapper,
    with-blocks on fresh / already entered / shared context objects, convert() with any flags and
-   conversion_ctx, internal_convert, FunctionScope, with_function_scope, to_graph; dynamic or
+   conversion_ctx, internal_convert, FunctionScope, with_function_scope, to_graph, inner functions
+   (nested defs) of entities converted with any options, called back from anywhere; dynamic or
    convertible functions; an exception raised at any position of any node and swallowed at any
    ancestor or not at all) and every initial state, after the call -- whether it returned or
    raised -- the thread's context stack is the very same list of objects as before, so
